@@ -107,6 +107,10 @@
 #[macro_use]
 pub(crate) mod helpers;
 
+#[cfg(kani)]
+#[path = "/verif/kani/support/containers.rs"]
+pub mod verif_containers;
+
 #[macro_use]
 pub mod macros;
 pub mod prelude;
